@@ -12,7 +12,8 @@ SPEC = {
         "alone, after another package, and after later packages ran) is refuted on the multi-file asp model by three "
         "machine-checked witnesses, one per root cause, each a listed known finding. Proved for all inputs: everything "
         "scope.Freeze leaves in a subincluded scope is a frozen wrapper at the top level (C17_exports_frozen, any facts, "
-        "any heap); every writing primitive (index assignment; sorted/reversed) refuses a frozen wrapper; + on a list "
+        "any heap); index assignment refuses a frozen wrapper, sorted/reversed on a frozen list only allocate their result "
+        "(C17_toplevel_partial); + on a list "
         "without spare capacity only extends the heap (C17_add_exact_cap_never_writes); today's Freeze is complete for "
         "flat lists without spare capacity (C17_freeze_today_flat); setdefault on an imported dict is refused (one "
         "decided sample); a Freeze that "
